@@ -4,6 +4,7 @@ Value specs (JSON-able, used in replays):
   ["none"] ["undef"] ["bool", b] ["int", hex, sub] ["float", float.hex()|"nan"|"inf"|"-inf", sub]
   ["str", [code points], sub] ["bytes", [ints]] ["list", [spec..]] ["tuple", [spec..]] ["dict", [[key cps, spec]..]]
   ["obj", id, builtin, [code points of str(o)]]
+  ["mapping", id, [[key cps, spec]..]]   a types.MappingProxyType (a Mapping that is no dict); opaque object in the models
   ["pyenum", class, member name]  ["pyflag", class, int]   members of the Python Enum classes Color/Other/Perm/Num
       below (Flag combinations by value).  In the model a non-int member is an object compared by identity whose
       str() is str(member); a member of the IntEnum Num is the int it is.
@@ -155,6 +156,9 @@ def to_py(spec, reg):
         return reg.get(spec[1], spec[2], "".join(map(chr, spec[3])))
     if k in ("pyenum", "pyflag"):
         return py_member(spec)
+    if k == "mapping":      # a Mapping that is not a dict
+        import types
+        return types.MappingProxyType({"".join(map(chr, kk)): to_py(x, reg) for kk, x in spec[2]})
     raise ValueError(spec)
 
 
@@ -227,6 +231,8 @@ def to_wire(spec):
         if isinstance(m, int):
             return [3] + enc_Z(int(m))
         return [9, member_id(m), 0] + enc_text([ord(c) for c in str(m)])
+    if k == "mapping":      # in the models: an opaque object of a builtins type (types.MappingProxyType)
+        return [9, spec[1], 1, 0]
     raise ValueError(spec)
 
 
@@ -336,6 +342,7 @@ def edge_values(thorough=False):
              ["dict", []], ["dict", [[[97], ispec(1)]]], ["dict", [[[97], ["list", [ispec(1)]]], [[98], ["none"]]]]]
     vals += [["tuple", []], ["tuple", [ispec(1)]], ["tuple", [ispec(1), ispec(1)]], ["tuple", [["list", [ispec(1)]]]],
              ["tuple", [sspec("1")]], ["list", [["tuple", [ispec(1)]]]]]
+    vals += [["mapping", 5001, []], ["mapping", 5002, [[[97], ispec(1)]]]]
     vals += [["pyenum", "Color", "RED"], ["pyenum", "Num", "TWO"], ["pyflag", "Perm", 3], ["pyenum", "Other", "X"]]
     vals += [["obj", 101, 0, [ord(c) for c in "custom"]], ["obj", 102, 0, [49, 50]], ["obj", 103, 0, []],
              ["obj", 104, 1, []], ["obj", 105, 0, [ord(c) for c in "1e3"]], ["obj", 106, 0, [0x661]]]
